@@ -76,14 +76,7 @@ func runLBDist(x *X) {
 	}
 	var hist []string
 	ejectedUntil := map[string]time.Duration{}
-	servedBy := func(id int) string {
-		for _, e := range net.snapshot() {
-			if e.kind == "dispatch" && e.req == id {
-				return e.backend
-			}
-		}
-		return ""
-	}
+	servedBy := func(id int) string { return net.dispatchedTo(id) }
 	oneReq := func(client string) (string, int) {
 		var res simResult
 		x.Do("req", func() { res = h.do(reqSpec{client: client}) }, onErr)
@@ -174,6 +167,9 @@ func runLBDist(x *X) {
 				}
 			}
 			n := 1 + c.Intn(2*tw, "pre-traffic")
+			if n > 400 {
+				n = 400 // (heavy members make 2*sum(w) thousands: enough is enough for a history step)
+			}
 			for j := 0; j < n && !x.dead; j++ {
 				oneReq("192.0.2.1")
 			}
@@ -401,7 +397,10 @@ func runLBDist(x *X) {
 		}
 		limit := 160
 		if c.Intn(longOdds, "wrr-long-run") == 0 {
-			limit = 2600 // (the scheduler's step budget per run allows about three times that)
+			limit = 2600
+			if x.S != nil {
+				x.S.StepLimit *= 4 // thousands of requests are thousands of scheduling steps: not a livelock
+			}
 			if total < 1300 {
 				total = 1300 + c.Intn(1300, "wrr-long-n")
 			}
